@@ -529,7 +529,8 @@ pub mod inner {
         /// The length of each slice equals [`self.width()`](Self::width).
         pub fn rows(&self) -> impl Iterator<Item = &[T]> {
             self.data
-                .chunks(self.stride as usize)
+                .chunks(self.stride.max(1) as usize)
+                .take(self.dims.1 as usize)
                 .map(|row| &row[..self.dims.0 as usize])
         }
 
@@ -558,7 +559,8 @@ pub mod inner {
         /// The length of each slice equals [`self.width()`](Self::width).
         pub fn rows_mut(&mut self) -> impl Iterator<Item = &mut [T]> {
             self.data
-                .chunks_mut(self.stride as usize)
+                .chunks_mut(self.stride.max(1) as usize)
+                .take(self.dims.1 as usize)
                 .map(|row| &mut row[..self.dims.0 as usize])
         }
 
